@@ -85,10 +85,21 @@ fn main() {
             println!("{}", p);
             let mut cfg = Config::default();
             cfg.max_permutations = Some(200_000);
-            let c = interp::collect(&p, &cfg, false);
+            let c = interp::collect(&p, &cfg, true);
             println!("loom: iters={} panic={:?} capped={}", c.report.iters, c.report.panic, c.report.capped);
             for (o, n) in &c.outcomes {
                 println!("   {}  x{}", fmt_outcome(o), n);
+                if std::env::var("LV_LOGS").is_ok() {
+                    if let Some(r) = c.records.iter().find(|r| &r.results == o) {
+                        println!("        log: {:?}", r.log);
+                    }
+                }
+            }
+            {
+                let mut o = refsc::Opts::new();
+                o.yield_sem = true;
+                let sc = refsc::explore(&p, o);
+                println!("SC with yield semantics ({} states): {:?}", sc.states, sc.outcomes.iter().map(fmt_outcome).collect::<Vec<_>>());
             }
             if refax::supports(&p) {
                 let b = refax::bracket(&p, 50_000_000);
